@@ -12,7 +12,7 @@ open Proto C08
 
 abbrev F := Float
 
-def toVec {n : Nat} (a : Array F) : Vec F n := fun i => a[i.val]!
+@[noinline] def toVec {n : Nat} (a : Array F) : Vec F n := fun i => a[i.val]!   -- noinline: keeps `minv x`, `pinv r` evaluated once (a PAP over the computed array)
 def ofVec {n : Nat} (v : Vec F n) : Array F := Array.ofFn v
 def toMat {m n : Nat} (a : Array F) : Mat F m n := fun i j => a[i.val * n + j.val]!
 
@@ -104,6 +104,18 @@ def solveRankDef (m : Nat) (A0 : FloatArray) (r0 : Array F) (tol : F) : Array F 
 
 def flat (a : Array F) : FloatArray := FloatArray.mk a
 
+/-- materialise a function-valued vector (identity extensionally) -/
+def mat {n : Nat} (v : Vec F n) : Vec F n := toVec (ofVec v)
+
+/-- `C08.loopFD`, evaluated stage by stage (`loopFD_stages`: the same value) with every intermediate vector materialised -/
+def loopFDStaged {m n : Nat} (minv : Vec F n → Vec F n) (pinv : Vec F m → Vec F m) (G : Mat F m n) (f : Vec F n) (b : Vec F m) :
+    Array F × Array F :=
+  let u0 := mat (stageUdot0 minv f)
+  let rhs := mat (stageRhs G u0 b)
+  let lam := mat (stageLam pinv rhs)
+  let udot := stageUdot minv G f lam
+  (ofVec udot, ofVec lam)
+
 def rowsOf (m n : Nat) (a : Array F) : Array (Array F) := (Array.range m).map (fun i => a.extract (i * n) (i * n + n))
 
 def doLoopFD (toks : List String) : String :=
@@ -123,8 +135,8 @@ def doLoopFD (toks : List String) : String :=
       ofVec (gMinvGt minv G (fun i : Fin m => if i.val == j then 1.0 else 0.0)))
     let Aflat : FloatArray := flat ((Array.range (m * m)).map (fun k => (Acols[k % m]!)[k / m]!))
     let pinv : Vec F m → Vec F m := fun r => let a := solveRankDef m Aflat (ofVec r) 1e-9; toVec a
-    let res := loopFD minv pinv G (toVec fa) (toVec ba)
-    let out := [1.0] ++ (ofVec res.udot).toList ++ (if fullrank == 1 then (ofVec res.lam).toList else [])
+    let res := loopFDStaged minv pinv G (toVec fa) (toVec ba)
+    let out := [1.0] ++ res.1.toList ++ (if fullrank == 1 then res.2.toList else [])
     fmtFloats "O loopFD" out
   | _ => "O loopFD ERR"
 
@@ -144,13 +156,19 @@ def doLoopFDMask (toks : List String) : String :=
     let (LU, perm) := luFactor n (flat Ma)
     let minv : Vec F n → Vec F n := fun x => let a := luSolve n LU perm (ofVec x); toVec a
     let rows : List (List F) := (List.range mf).map (fun i => (Ga.extract (i * n) (i * n + n)).toList)
-    let pinv : (m : Nat) → Mat F m n → Vec F m → Vec F m := fun m G r =>
-      let Acols : Array (Array F) := (Array.range m).map (fun j =>
-        ofVec (gMinvGt minv G (fun i : Fin m => if i.val == j then 1.0 else 0.0)))
-      let Aflat : FloatArray := flat ((Array.range (m * m)).map (fun k => (Acols[k % m]!)[k / m]!))
-      toVec (solveRankDef m Aflat (ofVec r) 1e-9)
-    let res := loopFDList minv pinv en rows ba.toList (toVec fa)
-    fmtFloats "O loopFDmask" ([1.0] ++ res.1 ++ (if fullrank == 1 then res.2 else []))
+    -- `G M⁻¹ ~G` of the assembled (enabled) rows, built once with the model's own `assemble` and `gMinvGt`
+    -- (function-valued vectors are re-evaluated on every component access, so nothing expensive may sit inside `pinv`)
+    let ra := assemble en rows
+    let ma := ra.length
+    let Ga : Mat F ma n := ofRows ra
+    let Acols : Array (Array F) := (Array.range ma).map (fun j =>
+      ofVec (gMinvGt minv Ga (fun i : Fin ma => if i.val == j then 1.0 else 0.0)))
+    let Aflat : FloatArray := flat ((Array.range (ma * ma)).map (fun k => (Acols[k % ma]!)[k / ma]!))
+    -- `loopFDList en rows b f` = `loopFD` on `ofRows (assemble en rows)` (`loopFDList_eq`), evaluated stage by stage
+    let pinv : Vec F ma → Vec F ma := fun r => toVec (solveRankDef ma Aflat (ofVec r) 1e-9)
+    let bl := assemble en ba.toList
+    let res := loopFDStaged minv pinv Ga (toVec fa) (fun i : Fin ma => bl.getD i.val 0)
+    fmtFloats "O loopFDmask" ([1.0] ++ res.1.toList ++ (if fullrank == 1 then res.2.toList else []))
   | _ => "O loopFDmask ERR"
 
 def doPower (toks : List String) : String :=
